@@ -21,7 +21,7 @@ Ev == TraceLog[l]
 TIds == 0..TMax
 IsLive(id) == id \in 1..TMax /\ tl[id] # Dead
 Bad(why) == PrintT(<<"BAD", l, why>>)
-Check(cond, why) == cond \/ Bad(why)
+Check(cond, why) == IF cond THEN TRUE ELSE Bad(why)     \* (a disjunction would be split into two successors by TLC)
 Once(t2, ids) == \A id \in 1..TMax : t2[id] # Dead => Cardinality({i \in 1..Len(ids) : ids[i] = id}) = 1
 Listed(t2) == Check(Once(t2, Ev.ids), "live-account-not-listed-once")
 Upd(t2) == tl' = t2 /\ Listed(t2)
@@ -45,12 +45,13 @@ TChPw   == /\ Ev.op = "chpw"
                    /\ Upd([tl EXCEPT ![Ev.id] = Ev.q])
               ELSE Upd(tl)
 TGet    == /\ Ev.op = "get"
-           /\ IsLive(Ev.id) =>
-                 \/ GetConforms(tl[Ev.id], Ev.p, Ev.res, Ev.rid = Ev.id /\ Ev.same)
-                 \/ Bad(IF Ev.res = "none" THEN "live-account-not-found"
-                        ELSE IF Ev.res = "ok" /\ Ev.p = tl[Ev.id] THEN "returned-other-key"
-                        ELSE IF Ev.res = "ok" THEN "wrong-password-accepted"
-                        ELSE "right-password-rejected")
+           /\ IF IsLive(Ev.id)
+              THEN Check(GetConforms(tl[Ev.id], Ev.p, Ev.res, Ev.rid = Ev.id /\ Ev.same),
+                         IF Ev.res = "none" THEN "live-account-not-found"
+                         ELSE IF Ev.res = "ok" /\ Ev.p = tl[Ev.id] THEN "returned-other-key"
+                         ELSE IF Ev.res = "ok" THEN "wrong-password-accepted"
+                         ELSE "right-password-rejected")
+              ELSE TRUE
            /\ Upd(tl)
 TOther  == Ev.op \in {"reopen", "convert", "setdefault", "setlabel"} /\ Upd(tl)
 
